@@ -19,9 +19,20 @@ class FileSpec:
     """cols: list of Col; rgs: list of row groups; row group = list (one per column) of chunks;
     chunk = list of pages; page = list of rows; row = None | bytes"""
 
-    def __init__(self, codec, cols, rgs):
+    def __init__(self, codec, cols, rgs, dict_encoded=False):
         self.codec, self.cols, self.rgs = codec, cols, rgs
+        self.dict_encoded = dict_encoded     # values are dictionary encoded (file comes from tools/pq.py)
         self._text = None
+        self._impl = None                    # "x:<hex>" when the implementation gets ready-made bytes
+        self.known = None                    # key of an open finding this file is a witness of
+
+    def impl_text(self):
+        """what the C driver gets: the same description, or the bytes of the file"""
+        return self._impl or self.text()
+
+    def use_bytes(self, data):
+        self._impl = "x:" + data.hex()
+        return self
 
     def text(self):
         if self._text is None:
@@ -30,7 +41,8 @@ class FileSpec:
             rg_txt = []
             for rg in self.rgs:
                 rg_txt.append(";".join("/".join(".".join(row(r) for r in pg) for pg in ch) for ch in rg))
-            self._text = "w:%d:%s:%s" % (self.codec, ",".join(c.decl() for c in self.cols), "|".join(rg_txt))
+            self._text = "w:%d%s:%s:%s" % (self.codec, "d" if self.dict_encoded else "",
+                                           ",".join(c.decl() for c in self.cols), "|".join(rg_txt))
         return self._text
 
     def rows(self, rg, col):
@@ -313,7 +325,7 @@ def pq_bytes(fs, encoding="RLE_DICTIONARY", crc=True, empty_pages=(), rng=None):
             if c.typ == "bool" and encoding != "PLAIN":
                 enc = "PLAIN"           # booleans have no dictionary encoding
             pages = []
-            for i, pg in enumerate(ch):
+            for i, pg in enumerate(ch):           # a page may be empty ([]): a data page with num_values = 0
                 if i in empty_pages:
                     pages.append(pq.PageSpec(0, enc, crc=crc))
                 pages.append(pq.PageSpec(len(pg), enc, crc=crc))
